@@ -19,10 +19,32 @@ FACTORIES = {
 }
 
 
+class FactoryHooks(KernelHooks):
+    """storage obtained by the factory (from new[] or from the block cache, which hands back blocks released earlier)
+    holds arbitrary previous contents: named symbols OLD<k>, so that a component that is accumulated onto, or never
+    written, shows up in the result"""
+
+    def _old_contents(self):
+        for reg in self.heap:
+            if reg.make is None and not reg.cells:
+                reg.make = lambda k, nm=reg.name: Poly.var('OLD_%s_%d' % (nm.replace('#', ''), k))
+
+    def on_new(self, it, node, count, elem_type):
+        p = KernelHooks.on_new(self, it, node, count, elem_type)
+        self._old_contents()
+        return p
+
+    def override_call(self, it, fdecl, node, args, this_cell):
+        r = KernelHooks.override_call(self, it, fdecl, node, args, this_cell)
+        if fdecl['name'] == 'squids::SU_vector::alloc_aligned':
+            self._old_contents()
+        return r
+
+
 def run_factory(db, name, args):
     unit = db.unit('SUNalg')
     f = db.one('SUNalg', 'squids::SU_vector::' + name, len(args))
-    it = Interp(unit, KernelHooks())
+    it = Interp(unit, FactoryHooks())
     r = it.call(f, None, list(args))
     return f, r
 
@@ -40,6 +62,15 @@ def vector_matrix(db, d, obj):
             return None
         comps.append(v)
     return basis.matrix_from(db, d, comps), comps
+
+
+def stale_note(res):
+    """mention components that still carry the previous contents of the storage block"""
+    if not res:
+        return ''
+    old = sorted(set(v for p in res[1] if isinstance(p, Poly) for v in p.vars() if v.startswith('OLD_')))
+    return ('; components depend on what the storage block held before (%s%s): they are accumulated onto or never written'
+            % (', '.join(old[:3]), ', ...' if len(old) > 3 else '')) if old else ''
 
 
 def diag_str(M, d):
@@ -84,7 +115,7 @@ def run(db, rep, tier):
                         rep.sample('A.fact.set', '%s(%d,%d) = %s' % (name, d, idx, diag_str(res[0], d)))
                 else:
                     want = 'diag(' + ','.join('1' if i in ones else '0' for i in range(d)) + ')'
-                    rep.fail('A.fact.set', site, unit.loc(f), want, diag_str(res[0], d) if res else 'wrong shape', f['name'])
+                    rep.fail('A.fact.set', site, unit.loc(f), want, (diag_str(res[0], d) if res else 'wrong shape') + stale_note(res), f['name'])
     for d in DIMS:
         n += 1
         try:
@@ -97,7 +128,7 @@ def run(db, rep, tier):
         if res is not None and compare_diag(res[0], d, set(range(d))):
             rep.ok('A.fact.set')
         else:
-            rep.fail('A.fact.set', 'Identity/%d' % d, unit.loc(f), 'unit matrix', diag_str(res[0], d) if res else 'wrong shape', f['name'])
+            rep.fail('A.fact.set', 'Identity/%d' % d, unit.loc(f), 'unit matrix', (diag_str(res[0], d) if res else 'wrong shape') + stale_note(res), f['name'])
     rep.floor('A.fact.set', n, 20 + 2 * 20 + 5)
     m = 0
     for d in DIMS:
@@ -115,5 +146,5 @@ def run(db, rep, tier):
                 rep.ok('A.fact.gen')
             else:
                 rep.fail('A.fact.gen', 'Generator/%d/%d' % (d, k), unit.loc(f), 'unit vector along component %d' % k,
-                         'other' if res else 'wrong shape', f['name'])
+                         ('other' if res else 'wrong shape') + stale_note(res), f['name'])
     rep.floor('A.fact.gen', m, 90)
